@@ -431,7 +431,7 @@ func (i *Interpreter) ProcessStringConcatInfixExpression(exp *ast.InfixExpressio
 		case *ast.String:
 			rv, opErr = operator.Concat(rv, cv)
 			if opErr != nil {
-				return value.Null, errors.WithStack(err)
+				return value.Null, errors.WithStack(opErr)
 			}
 		case *ast.IfExpression:
 			if cv.Type() != value.StringType {
@@ -443,7 +443,7 @@ func (i *Interpreter) ProcessStringConcatInfixExpression(exp *ast.InfixExpressio
 			}
 			rv, opErr = operator.Concat(rv, cv)
 			if opErr != nil {
-				return value.Null, errors.WithStack(err)
+				return value.Null, errors.WithStack(opErr)
 			}
 		case *ast.FunctionCallExpression:
 			// Fiddle: https://fiddle.fastly.dev/fiddle/e71a005f
@@ -456,7 +456,7 @@ func (i *Interpreter) ProcessStringConcatInfixExpression(exp *ast.InfixExpressio
 			}
 			rv, opErr = operator.Concat(rv, cv)
 			if opErr != nil {
-				return value.Null, errors.WithStack(err)
+				return value.Null, errors.WithStack(opErr)
 			}
 		case *ast.Ident:
 			switch cv.Type() {
@@ -474,7 +474,7 @@ func (i *Interpreter) ProcessStringConcatInfixExpression(exp *ast.InfixExpressio
 				}
 
 				if opErr != nil {
-					return value.Null, errors.WithStack(err)
+					return value.Null, errors.WithStack(opErr)
 				}
 				continue
 			case value.IpType:
@@ -491,7 +491,7 @@ func (i *Interpreter) ProcessStringConcatInfixExpression(exp *ast.InfixExpressio
 				}
 
 				if opErr != nil {
-					return value.Null, errors.WithStack(err)
+					return value.Null, errors.WithStack(opErr)
 				}
 				continue
 			case value.TimeType:
@@ -506,12 +506,12 @@ func (i *Interpreter) ProcessStringConcatInfixExpression(exp *ast.InfixExpressio
 						}
 						cv, opErr = operator.TimeCalculation(cv, nv, next.Operator)
 						if opErr != nil {
-							return value.Null, errors.WithStack(err)
+							return value.Null, errors.WithStack(opErr)
 						}
 						// String concat with left and time-calculated value (TIME type)
 						rv, opErr = operator.Concat(rv, cv)
 						if opErr != nil {
-							return value.Null, errors.WithStack(err)
+							return value.Null, errors.WithStack(opErr)
 						}
 						// Next RTime is consumed, increment index
 						idx++
@@ -540,7 +540,7 @@ func (i *Interpreter) ProcessStringConcatInfixExpression(exp *ast.InfixExpressio
 			}
 			rv, opErr = operator.Concat(rv, cv)
 			if opErr != nil {
-				return value.Null, errors.WithStack(err)
+				return value.Null, errors.WithStack(opErr)
 			}
 		default:
 			return value.Null, exception.Runtime(
